@@ -13,7 +13,7 @@ import ast
 import itertools
 
 from .. import flow
-from ..astutil import body_walk, call_name, call_recv, calls_in, kwarg, names_in, norm, strip_await, walk_no_nested
+from ..astutil import atom_polarity, body_walk, call_name, call_recv, calls_in, kwarg, names_in, norm, strip_await, walk_no_nested
 from ..loader import AnalysisError
 from .common import admission_items, env_of, in_admission, parmap, typer, where
 
@@ -797,10 +797,133 @@ def r10_7(ctx):
             ctx.ok("R10.7", where(fi), f"test @{g.nodes[tnode].line} is preceded by a clean-up of executing_tasks on every path from the loop head")
     # _cleanup_executing_tasks filters on `completed`
     cu = p.func("mbox.Mailbox._cleanup_executing_tasks")
+    ctx.analysed(cu)
     if any(isinstance(s, ast.Assign) and norm(s.targets[0]) == "self.executing_tasks" and isinstance(s.value, ast.ListComp) and "not x.completed" in norm(s.value) for s in body_walk(cu.node)):
         ctx.ok("R10.7", where(cu), "clean-up keeps exactly the commands that are not completed", nontrivial=False)
     else:
         ctx.bad("R10.7", cu.module, cu.qual, "[x for x in executing_tasks if not x.completed]", "_cleanup_executing_tasks no longer drops completed commands", cu.node.lineno)
+
+
+BUSY_LOOP_OK = {
+    "mbox.Mailbox.shutdown": "drains the queue with get_nowait() and leaves through QueueEmpty: bounded by the queue length",
+}
+
+
+def r10_8(ctx):
+    """Admission wait loops and bookkeeping.
+    (a) every `while` loop of a coroutine in the server modules has an await on every way round (a loop that polls shared
+        state without yielding never lets the tasks that would change that state run: the process spins for ever);
+    (b) command_can_proceed waits *while* would_conflict() holds and cleans the list of executing commands on every round;
+    (c) management_task registers the admitted command in executing_tasks after command_can_proceed returned and before it
+        releases the command; the failure arm hands the exception to the waiting command."""
+    p = ctx.p
+    n_loops = 0
+    for fi in p.functions.values():
+        if fi.module not in ("mbox", "client", "user_server", "server", "pop3_client", "pop3_server", "parse", "mh") or not isinstance(fi.node, ast.AsyncFunctionDef):
+            continue
+        loops = [n for n in body_walk(fi.node) if isinstance(n, ast.While)]
+        if not loops:
+            continue
+        g = ctx.cfg(fi)
+        for lp in loops:
+            n_loops += 1
+            tests = [n for n in g.nodes_for(lp) if g.nodes[n].kind == "test"]
+            if not tests:
+                continue
+            awaits = {n.id for n in g.nodes if n.ast is not None and any(isinstance(x, (ast.Await, ast.AsyncFor, ast.AsyncWith)) for x in ([n.ast] if n.kind in ("with_enter", "iter") else walk_no_nested(n.ast))) and n.kind in ("stmt", "test", "with_enter", "iter", "return")}
+            # locals assigned in the body bound the loop (remaining -= ...)
+            assigned = {t.id for st in lp.body for x in ast.walk(st) if isinstance(x, (ast.Assign, ast.AugAssign)) for t in ast.walk(x.targets[0] if isinstance(x, ast.Assign) else x.target) if isinstance(t, ast.Name)}
+            bounded = bool(names_in(lp.test) & assigned)
+            body_entry = [e.dst for t in tests for e in g.out[t] if e.label == "true"]
+            seen = flow.reach(g, [b for b in body_entry if b not in awaits], flow.NORMAL, avoid=lambda n: n in awaits)
+            ctx.paths_explored += len(seen)
+            spins = any(t in seen for t in tests) or any(b in tests for b in body_entry)
+            if spins and not bounded and fi.key not in BUSY_LOOP_OK:
+                ctx.bad(
+                    "R10.8", fi.module, fi.qual, f"while {norm(lp.test, 50)}: no await on a way round",
+                    f"the loop `while {norm(lp.test, 60)}` can go round without awaiting anything: the condition is changed by other tasks, "
+                    "which never get to run - the event loop spins and every session of the user hangs",
+                    lp.lineno,
+                )
+            else:
+                ctx.ok("R10.8", where(fi), f"while {norm(lp.test, 40)} @{lp.lineno}: " + ("bounded by a local" if bounded else BUSY_LOOP_OK.get(fi.key, "awaits on every way round")), nontrivial=not bounded)
+    ctx.floor("R10.8", n_loops, 12, "while loops in coroutines of the server modules")
+    # (b)
+    ccp = p.func("mbox.Mailbox.command_can_proceed")
+    ctx.analysed(ccp)
+    cmdp = ccp.node.args.args[1].arg
+    wl = [n for n in body_walk(ccp.node) if isinstance(n, ast.While) and any(isinstance(c, ast.Call) and call_name(c) == "would_conflict" for c in ast.walk(n.test))]
+    okb = False
+    for w in wl:
+        pos = atom_polarity(w.test, lambda x: isinstance(x, ast.Call) and call_name(x) == "would_conflict")
+        c = [c for c in ast.walk(w.test) if isinstance(c, ast.Call) and call_name(c) == "would_conflict"][0]
+        cleans = any(call_name(c2) == "_cleanup_executing_tasks" for st in w.body for c2 in calls_in(st))
+        if pos and c.args and norm(c.args[0]) == cmdp and cleans and w in ccp.node.body:
+            okb = True
+    early = [r for r in body_walk(ccp.node) if isinstance(r, ast.Return)]
+    if okb and not early:
+        ctx.ok("R10.8", where(ccp), "waits while would_conflict(<the command>) holds, pruning completed commands every round; no early return")
+    else:
+        ctx.bad("R10.8", ccp.module, ccp.qual, f"while self.would_conflict({cmdp}): ...", "command_can_proceed no longer waits exactly while the command conflicts with the executing ones (test negated / other command / early return / completed commands never pruned): conflicting commands run together or a command waits for ever", ccp.node.lineno)
+    # the second wait (periodic full stop): while executing_tasks is non-empty, pruning every round
+    w2 = [n for n in body_walk(ccp.node) if isinstance(n, ast.While) and "executing_tasks" in norm(n.test) and not any(isinstance(c, ast.Call) and call_name(c) == "would_conflict" for c in ast.walk(n.test))]
+    for w in w2:
+        pos = atom_polarity(w.test, lambda x: isinstance(x, ast.Attribute) and x.attr == "executing_tasks")
+        cleans = any(call_name(c2) == "_cleanup_executing_tasks" for st in w.body for c2 in calls_in(st))
+        if pos and cleans:
+            ctx.ok("R10.8", where(ccp), "periodic full stop: waits while commands are executing, pruning completed ones every round")
+        else:
+            ctx.bad("R10.8", ccp.module, ccp.qual, f"while {norm(w.test)}: ... _cleanup_executing_tasks()", "the wait for all executing commands to finish is negated or never prunes completed commands: it never ends (every command on this mailbox hangs after 10 s of load)", w.lineno)
+    # (c)
+    mt = p.func("mbox.Mailbox.management_task")
+    g = ctx.cfg(mt)
+    # resync / pack only while nothing is executing (a resync renumbers positions under a running command)
+    par = parmap(mt)
+    for c in calls_in(mt.node):
+        if call_name(c) in ("check_new_msgs_and_flags", "_pack_if_necessary"):
+            cur, guarded, in_loop = c, False, False
+            while cur in par:
+                pr = par[cur]
+                if isinstance(pr, ast.While):
+                    in_loop = True
+                if isinstance(pr, ast.If) and cur in pr.body:
+                    pos = atom_polarity(pr.test, lambda x: isinstance(x, ast.Attribute) and x.attr == "executing_tasks")
+                    if pos is False:
+                        guarded = True
+                cur = pr
+            if not in_loop:
+                ctx.ok("R10.8", where(mt), f"{call_name(c)}() @{c.lineno} before the loop starts (nothing admitted yet)", nontrivial=False)
+            elif guarded:
+                ctx.ok("R10.8", where(mt), f"{call_name(c)}() @{c.lineno} only under `not self.executing_tasks`")
+            else:
+                ctx.bad("R10.8", mt.module, mt.qual, f"{call_name(c)}() outside `if not self.executing_tasks`", f"{call_name(c)}() can run while admitted commands are executing: message positions / keys change under a running FETCH, STORE or SEARCH", c.lineno)
+    ccp_nodes = {n.id for n in g.nodes if n.ast is not None and n.kind == "stmt" and any(call_name(c) == "command_can_proceed" for c in calls_in(n.ast))}
+    app = {n.id for n in g.nodes if n.ast is not None and n.kind == "stmt" and any(call_name(c) == "append" and norm(call_recv(c) or ast.Name("")) == "self.executing_tasks" for c in calls_in(n.ast))}
+    ctx.require(ccp_nodes, "management_task: call of command_can_proceed not found")
+    if not app:
+        ctx.bad("R10.8", mt.module, mt.qual, "self.executing_tasks.append(<cmd>)", "the admitted command is never registered in executing_tasks: would_conflict() sees nothing executing and every command is admitted at once", mt.node.lineno)
+    else:
+        bad = False
+        for a in app:
+            if flow.dominated_by(g, a, lambda n: n in ccp_nodes) is not None:
+                bad = True
+        # from command_can_proceed, every normal path to the next loop round passes the append
+        heads = [n.id for n in g.nodes if n.kind == "test" and isinstance(n.stmt, ast.While)]
+        for c0 in ccp_nodes:
+            succ = [e.dst for e in g.out[c0] if e.label in flow.NORMAL]
+            w = flow.reach(g, succ, flow.NORMAL, avoid=lambda n: n in app)
+            ctx.paths_explored += len(w)
+            if any(h in w for h in heads):
+                bad = True
+        if bad:
+            ctx.bad("R10.8", mt.module, mt.qual, "command_can_proceed -> executing_tasks.append", "a command can be released without having been registered in executing_tasks after its admission wait (or is registered before the wait): later commands do not see it and run concurrently with it", mt.node.lineno)
+        else:
+            ctx.ok("R10.8", where(mt), "admitted command is appended to executing_tasks after command_can_proceed and before the next round, on every normal path")
+    hand = [n for n in body_walk(mt.node) if isinstance(n, ast.ExceptHandler) and n.name and any(isinstance(s_, ast.Assign) and isinstance(s_.targets[0], ast.Attribute) and s_.targets[0].attr == "mgmt_exception" and norm(s_.value) == n.name for s_ in n.body)]
+    if hand:
+        ctx.ok("R10.8", where(mt), "failure arm hands the exception to the waiting command (mgmt_exception)")
+    else:
+        ctx.bad("R10.8", mt.module, mt.qual, "<cmd>.mgmt_exception = exc", "when preparing a command fails (message set out of range, resync error) the waiting command is released without the exception: it runs as if admitted - unregistered, and with a stale message set - instead of answering BAD/NO", mt.node.lineno)
 
 
 def run(ctx):
@@ -811,5 +934,6 @@ def run(ctx):
     ctx.do(r10_4_units)
     ctx.do(r10_5)
     ctx.do(r10_7)
+    ctx.do(r10_8)
     for k, v in DISJOINT_EDGES.items():
         ctx.trust(f"frozen instance-disjoint lock edge {k[0]}->{k[1]} in {k[2]}: {v}")
